@@ -121,18 +121,22 @@ func doOp(w *world, kind, table, key string) error {
 // key lands on it. first: the key touched first (cold cache).
 func c01StaleParentUnits() []*explore.Unit {
 	var units []*explore.Unit
-	for _, first := range []string{"n", "a", "r", "m"} {
+	for vi, first := range []string{"n", "a", "r", "m", "q", "p"} {
 		first := first
+		two := vi >= 4 // two stale rows, [m,) and [p,), one above the other
 		var errs []error
 		var w *world
-		u := &explore.Unit{Name: fmt.Sprintf("wire|meta holds the offline row of a split parent [m,)|live [,r) [r,)|first key %q", first), Bound: 0, Opt: vrt.Options{MaxSteps: 60000}}
+		u := &explore.Unit{Name: fmt.Sprintf("wire|meta holds the offline row of a split parent [m,)|two=%v|live [,r) [r,)|first key %q", two, first), Bound: 0, Opt: vrt.Options{MaxSteps: 60000}}
 		u.Body = func() {
 			errs = nil
 			cl := sim.NewCluster("rs0:1")
 			cl.AddTable("t", []string{"r"}, []string{"rs1:1", "rs2:1"})
 			cl.StaleRows = append(cl.StaleRows, &sim.Region{Table: "t", Start: []byte("m"), ID: 1, Server: "rs2:1", Offline: true})
+			if two {
+				cl.StaleRows = append(cl.StaleRows, &sim.Region{Table: "t", Start: []byte("p"), Stop: []byte("r"), ID: 2, Server: "rs2:1", Offline: true})
+			}
 			w = newWorldW(cl, gohbase.FlushInterval(0), gohbase.RpcQueueSize(1))
-			for _, k := range []string{first, "n", "a", "z", "m"} {
+			for _, k := range []string{first, "n", "a", "z", "m", "q"} {
 				ctx, cancel := vcontext.WithTimeout(context.Background(), 10*time.Minute)
 				g, _ := hrpc.NewGetStr(ctx, "t", k)
 				r, err := w.client.Get(g)
